@@ -51,18 +51,41 @@ func c16Audit3(r *Report, us *ssa.Function) {
 		r.Lost(key, rule, "CredentialStore.Store not found")
 		return
 	}
-	n := 0
+	// the branch taken when a stored credential with this ID has other contents must produce the RejectedError
+	n, clash := 0, 0
+	strip := Fn("vcr/credential/store", "", "stripWhitespaceAndLinebreaks")
 	for _, b := range cs.Blocks {
 		for _, in := range b.Instrs {
 			if mi, ok := in.(*ssa.MakeInterface); ok && strings.HasSuffix(mi.X.Type().String(), "store.RejectedError") {
 				n++
 			}
 		}
+		iff, ok := b.Instrs[len(b.Instrs)-1].(*ssa.If)
+		if !ok {
+			continue
+		}
+		bin, isBin := iff.Cond.(*ssa.BinOp)
+		if !isBin || (bin.Op != token.NEQ && bin.Op != token.EQL) || !CallV(strip, -1).M(bin.X) || !CallV(strip, -1).M(bin.Y) {
+			continue
+		}
+		differ := b.Succs[0]
+		if bin.Op == token.EQL {
+			differ = b.Succs[1]
+		}
+		clash++
+		for _, in := range differ.Instrs {
+			if mi, isMI := in.(*ssa.MakeInterface); isMI && strings.HasSuffix(mi.X.Type().String(), "store.RejectedError") {
+				clash += 100
+			}
+		}
 	}
 	r.Sites += n
-	if n < 1 {
-		r.Bad(key, rule, p.Pos(cs.Pos()), "no RejectedError is returned by Store: the client aborts on every unstorable entry, forever")
-	} else {
+	switch {
+	case clash == 0:
+		r.Lost(key, rule, "the comparison of the stored and the new credential's contents was not found")
+	case clash < 100 || n < 1:
+		r.Bad(key, rule, p.Pos(cs.Pos()), "the branch for 'same ID, other contents' does not return a RejectedError: the client aborts on such an entry on every poll, forever")
+	default:
 		r.OK(key, rule, p.Pos(cs.Pos()), "", true)
 	}
 }
